@@ -200,7 +200,7 @@ def balanced_eval(exprs, sizes, tag):
     n = len(exprs)
     if n == 0:
         return []
-    k = min(16, n)
+    k = max(1, min(16, n, sum(sizes) // 3000 + 1))      # few processes for little data: coqc start-up dominates
     order = sorted(range(n), key=lambda i: -sizes[i])
     bins = [[] for _ in range(k)]
     for j, i in enumerate(order):
